@@ -235,27 +235,36 @@ def coqchk(pid):
 
 
 # ---------------------------------------------------------------- case generation / evaluation
-_ISOLATE = None
+_ISOLATE = {}
 
 
-def isolate_prefix():
+def isolate_prefix(pidns=False):
     """Run the harness in a private mount namespace with a fresh tmpfs on its scratch directory
     /var/tmp/lcv, so that concurrent checks (several properties, several worktrees) cannot wipe
-    each other's worlds.  Falls back to the shared directory where unshare -m is unavailable."""
-    global _ISOLATE
-    if _ISOLATE is None:
-        pre = ['unshare', '-m', '--propagation', 'private', 'sh', '-c',
-               'mkdir -p /var/tmp/lcv && mount -t tmpfs tmpfs /var/tmp/lcv && exec "$@"', 'sh']
-        try:
-            ok = subprocess.run(pre + ['true'], stdout=subprocess.DEVNULL, stderr=subprocess.DEVNULL, timeout=30).returncode == 0
-        except Exception:
-            ok = False
-        _ISOLATE = pre if ok else []
-    return _ISOLATE
+    each other's worlds.  With pidns (the layercake-command checks, whose process-level steps let
+    the real binary scan /proc for users of a layer) also in a private PID namespace with its own
+    /proc, so that the scan sees the processes of this run only -- a concurrent run uses the same
+    path strings in its own namespace.  Falls back to less isolation where unshare cannot do it."""
+    if pidns not in _ISOLATE:
+        tail = ['--propagation', 'private', 'sh', '-c',
+                'mkdir -p /var/tmp/lcv && mount -t tmpfs tmpfs /var/tmp/lcv && exec "$@"', 'sh']
+        choices = [['unshare', '-m'] + tail]
+        if pidns:
+            choices.insert(0, ['unshare', '-m', '-p', '-f', '--mount-proc'] + tail)
+        _ISOLATE[pidns] = []
+        for pre in choices:
+            try:
+                ok = subprocess.run(pre + ['true'], stdout=subprocess.DEVNULL, stderr=subprocess.DEVNULL, timeout=30).returncode == 0
+            except Exception:
+                ok = False
+            if ok:
+                _ISOLATE[pidns] = pre
+                break
+    return _ISOLATE[pidns]
 
 
 def run_harness(cfg, action, out, **kw):
-    cmd = isolate_prefix() + [os.path.join(RUN, 'lcv'), cfg['go'], action, '-out', out]
+    cmd = isolate_prefix(cfg.get('pidns', False)) + [os.path.join(RUN, 'lcv'), cfg['go'], action, '-out', out]
     for k, v in kw.items():
         cmd += ['-' + k, str(v)]
     rc, o = sh(cmd, timeout=cfg.get('gen_timeout', 1800), env=dict(GOENV, LCV_RUN=RUN, LCV_REPO=REPO),
@@ -557,6 +566,19 @@ def run_property(pid, tier, seed, replay_file=None):
                       'scripts of layercake commands: the theorems about mounts no longer speak about this kernel/code '
                       'combination; no input on which the property predicate fails was found' % (len(ref_bad), referee['runs']),
                       nofail=True, extra={'broken': 'correspondence Kernel.v / real kernel (referee)', 'referee': ref_bad[:3]})
+    # a case outside the model's domain (wf false) is neither compared nor judged.  Inputs that
+    # the harness derives from the implementation's own answers take part in wf for some
+    # properties, so a change that makes the implementation answer differently can push cases out
+    # of the domain instead of into a mismatch: when a quarter of the cases are out of domain
+    # (unchanged tree: at most 6 %) the correspondence no longer covers what it is meant to cover
+    if not violations and not replay_file and len(cases_all) >= 20 and 4 * len(ood) > len(cases_all):
+        i = ood[0]
+        add_violation(cases_all[i], verd_all[i],
+                      'domain collapse: %d of %d cases are outside the domain of the model (%s wf is false on them); '
+                      'the theorems of Properties/%s.v speak about inputs the implementation is no longer run on; '
+                      'no input on which the property predicate fails was found'
+                      % (len(ood), len(cases_all), cfg['verdict'], pid), nofail=True,
+                      extra={'broken': 'correspondence %s (domain)' % cfg['verdict']})
     if evalerr and not violations:
         raise Broken('case evaluation failed in Coq:\n' + '\n'.join(errors_all[:3]))
 
